@@ -100,7 +100,7 @@ JOBS.update({
         jobs=procs_jobs("C06", ["mix=res,faults=1", "mix=pool,faults=1", "mix=buf,faults=1", "mix=oq,faults=1", "mix=pq,faults=1", "mix=cond,faults=1", "mix=all,faults=2"], 400000, 16000000, crowd_mix="mix=all,faults=1,crowd=1", sweep_mixes=["mix=res", "mix=pool", "mix=buf", "mix=oq", "mix=pq"], churn=40000),
         wall_quick=55, wall_thorough=1200,
         assumptions=["judges wake-ups, not completion of a multi-step get/put (a woken waiter that finds nothing re-queues with a new entry time by design)",
-                     "equal (priority, entry time) is left unordered; waiters whose priority was changed, or that ran, in the event of the grant are not compared",
+                     "waiters of equal priority that started waiting in the same instant are ranked by their order of arrival at the list (harness stamps: at most one process enters a given list per event); waiters whose priority was changed, or that ran, in the event of the grant are not compared",
                      "conditions: each waiter has its own predicate, so what is judged is the order among the waiters that one signal (explicit or forwarded) finds satisfied: those that then resume with success in that instant must do so by (priority, waiting-since), unless a priority was set in between; one pass of the library over the waiters is recognised as a run of predicate evaluations with no harness step in between",
                      "a waiter that stays in a list without running must keep its waiting-since time, and whoever enters a list does so with the current time",
                      "that the waiting-list comparator is a heap order at all is certified by C02 (hheap engine, comparator taken from a freshly initialised guard)"]),
@@ -145,11 +145,11 @@ JOBS.update({
         assumptions=["threads interleave at call granularity (a race inside one call is out of reach of a serialising scheduler)",
                      "38 sampler kinds (every sampling function of cmb_random.h except the hardware seed) with fixed admissible parameters; seeds 0, 1, 2^64-1, the dummy seed and random ones"]),
     "C19": dict(level="exploration",
-        rule="seed -> cimba_run_experiment called for real with wrapped pthread_create/join/cpu-count: 1-9 worker threads parked and released by the baton scheduler at yield points inside the trial function, 1-48 trials of eight content kinds, element sizes 9-200 bytes, one common trial function or (a quarter of the runs) your_trial_func == NULL with the function stored as the first member of every trial struct; exactly-once ledger and byte comparison with each trial run alone in a fresh thread and with a one-after-another run; "
+        rule="seed -> cimba_run_experiment called for real with wrapped pthread_create/join/cpu-count: 1-9 worker threads parked and released by the baton scheduler at yield points inside the trial function, 1-48 trials of nine content kinds, element sizes 9-200 bytes, one common trial function or (a quarter of the runs) your_trial_func == NULL with the function stored as the first member of every trial struct; exactly-once ledger and byte comparison with each trial run alone in a fresh thread and with a one-after-another run; "
              "distinct = distinct trace hashes; non-trivial = some worker ran more than one trial and the baton changed hands",
         jobs=[J("experiment", "rel", 6000, 150000), J("experiment", "san", 1500, 30000)],
         wall_quick=55, wall_thorough=900, crash_is_violation=True,
-        assumptions=["a crash of an experiment run counts as a C19 violation (the call never returned)", "processes that compete for the same waiting list inside a trial have distinct priorities (the library breaks remaining ties by memory address, which differs between runs by design of malloc, not of cimba)",
+        assumptions=["a crash of an experiment run counts as a C19 violation (the call never returned)", "one trial kind makes processes of equal priority queue in the same instant and equal-priority pool holders be preempted, after an allocation history that differs from trial to trial: the outcome must not depend on where the allocator put things",
                      "the number of worker threads itself is not judged"]),
     "C10": dict(level="exploration",
         rule="every engine's valid-program generator on the release-assert build (gcc -O3 -DNDEBUG) and on the ASan+UBSan build, plus growth templates (waiters on both sides of 8 and 16, thousands of armed timers and queued objects crossing 64 tag-pool chunks, histories beyond 1024 samples) and utility-class call sequences from the dispatcher and from inside a process; "
@@ -164,7 +164,9 @@ JOBS.update({
               J("hheap", "san", 10000, 300000, only="C10"), J("coro", "san", 10000, 300000, only="C10"),
               J("procs", "rel", 320, 8000, cfg="mix=all,faults=2", only="C10", valgrind=True), J("util", "rel", 160, 4000, only="C10", valgrind=True),
               J("events", "rel", 160, 4000, only="C10", valgrind=True), J("hheap", "rel", 160, 4000, only="C10", valgrind=True),
-              J("mempool", "san", 2000, 60000, only="C10"), J("rng", "san", 2000, 60000, only="C10"), J("experiment", "san", 800, 20000, only="C10")],
+              J("mempool", "san", 2000, 60000, only="C10"), J("rng", "san", 2000, 60000, only="C10"), J("experiment", "san", 800, 20000, only="C10"),
+              # the end of a trial as the tutorials write it: stop, terminate and destroy heap-allocated processes one after the other while wake-ups are pending
+              J("teardown", "san", 6000, 200000, only="C10"), J("teardown", "rel", 30000, 1000000, only="C10")],
         wall_quick=58, wall_thorough=1500,
         assumptions=["validity standard: the preconditions documented in include/*.h (where the header is silent, the call is valid)",
                      "UBSan alignment/null/object-size checks are off (one deliberate misaligned store in cmi_coroutine_context_init; the offsetof-via-null idiom in cmi_slist.h)",
